@@ -262,6 +262,7 @@ def run_session(sess: Dict[str, Any], world_dir: str, emit: Callable[[Dict[str, 
     except Exception as exc:  # noqa: BLE001
         emit({"ev": "harness_error", "where": "pre", "exc": type(exc).__name__, "msg": str(exc)[:300]})
         return 3
+    env.normalise_mtimes()
     base_environ = dict(os.environ)
     for i, o in enumerate(sess["ops"]):
         gc.collect()
@@ -285,6 +286,7 @@ def run_session(sess: Dict[str, Any], world_dir: str, emit: Callable[[Dict[str, 
             continue
         try:
             obs = fn(state, o, env)
+            env.threads.drain()   # threads the operation started and never joined finish before the next operation
             emit({"ev": "op_end", "i": i, "op": o["op"], "ok": True, "obs": obs})
         except simenv.SessionKilled:
             emit({"ev": "op_end", "i": i, "op": o["op"], "ok": False, "exc": "SessionKilled", "killed": True})
@@ -315,6 +317,6 @@ def run_session(sess: Dict[str, Any], world_dir: str, emit: Callable[[Dict[str, 
     gc.collect()
     os.environ.clear()
     os.environ.update(base_environ)
-    env.stats["clock_s"] = round(env._clock_now - env._clock_start, 4)
+    env.stats["clock_s"] = round(env._clock_fwd, 4)
     emit({"ev": "session_end", "killed": False, "stats": env.stats})
     return 0
